@@ -123,6 +123,9 @@ func execAuto(h H, rec *pbt.Rec) error {
 		} else if c.Near > 0 {
 			k := (c.Near - 1) % 256
 			asked[k/8] ^= 1 << uint(7-k%8)
+			if c.Near%5 != 0 { // the adversary's best play: the answer names the digest that was asked
+				mr.KeyDigest = append([]byte{}, asked[:]...)
+			}
 		}
 		mu.Lock()
 		next = mr
